@@ -71,12 +71,12 @@ func (f *FileEnt) link_child(name string, c *FileEnt) error {
 // Only removes the link if it still leads to c, so that a stale
 // handle cannot remove a newer file of the same name.
 func (f *FileEnt) unlink_child(name string, c *FileEnt) error {
+	f.Lock()
+	defer f.Unlock()
 	if f.children == nil {
 		return errors.New("not a directory.")
 	}
 
-	f.Lock()
-	defer f.Unlock()
 	cur, found := f.children[name]
 	if !found || cur != c {
 		return errors.New("not found")
